@@ -358,6 +358,7 @@ func c13Scaling(c *Ctx, sx *symx.Ctx) {
 			others = append(others, mu)
 		}
 	}
+	var callCopies []*ssa.Call
 	for _, ref := range *table.Referrers() {
 		switch x := ref.(type) {
 		case *ssa.MapUpdate, *ssa.Lookup, *ssa.Return, *ssa.DebugRef:
@@ -367,14 +368,20 @@ func c13Scaling(c *Ctx, sx *symx.Ctx) {
 				r.Bad("O-2", fk+"#boost-table-escapes", c.P.Pos(x.Pos()), "the boost table is stored outside the function that builds it")
 			}
 		case *ssa.Call:
-			if n := ssau.CallName(x); n != "builtin.len" {
+			n := ssau.CallName(x)
+			if strings.HasPrefix(n, "maps.Copy") && len(x.Common().Args) == 2 && x.Common().Args[0] == ssa.Value(table) && isCtx(x.Common().Args[1]) {
+				// maps.Copy(table, ContextBoosts): the verbatim copy, done by the library
+				callCopies = append(callCopies, x)
+				continue
+			}
+			if n != "builtin.len" {
 				r.Bad("O-2", fk+"#boost-table-escapes", c.P.Pos(x.Pos()), "the boost table is handed to "+n+", which may rewrite it")
 			}
 		default:
 			r.Bad("O-2", fk+"#boost-table-escapes", c.P.Pos(ref.Pos()), "the boost table escapes through "+ref.String())
 		}
 	}
-	r.Check(len(copies) == 1, "O-2", fk+"#context-boosts-copied", c.P.Pos(table.Pos()), "termBoost[k] = v for every (k, v) of ContextBoosts", fmt.Sprintf("%d verbatim copies of ContextBoosts into the boost table (want 1)", len(copies)))
+	r.Check(len(copies)+len(callCopies) == 1, "O-2", fk+"#context-boosts-copied", c.P.Pos(table.Pos()), "termBoost[k] = v for every (k, v) of ContextBoosts", fmt.Sprintf("%d verbatim copies of ContextBoosts into the boost table (want 1)", len(copies)+len(callCopies)))
 	for i, mu := range others {
 		key := fmt.Sprintf("%s#emphasis-update-%d", fk, i+1)
 		body := mu.Parent()
@@ -406,6 +413,28 @@ func c13Scaling(c *Ctx, sx *symx.Ctx) {
 				}
 			}
 		}
+		for _, cc := range callCopies {
+			for _, ab := range anchors {
+				if !(cc.Block().Dominates(ab) && cc.Block() != ab) {
+					// same block: the copy must come first
+					before := false
+					if cc.Block() == ab {
+						for _, in := range ab.Instrs {
+							if in == ssa.Instruction(cc) {
+								before = true
+								break
+							}
+							if in == ssa.Instruction(mu) {
+								break
+							}
+						}
+					}
+					if !before {
+						after = false
+					}
+				}
+			}
+		}
 		// a guarded max: if table[k] < v { table[k] = v } with the same v
 		guarded := false
 		for _, d := range ssau.TransitiveControlDeps(cd, mu.Block()) {
@@ -424,6 +453,9 @@ func c13Scaling(c *Ctx, sx *symx.Ctx) {
 		desc := bf.Plain(mu.Value)
 		if cv, isC := ssau.ConstFloat(mu.Value); isC {
 			atLeast1 = cv >= 1
+		} else if leaves, ok := ssau.ValueSources(mu.Value); ok && allConstAtLeast1(leaves) {
+			// a field of a local table of literals
+			atLeast1 = true
 		} else if p, isP := mu.Value.(*ssa.Parameter); isP && body != home {
 			idx := -1
 			for k, q := range body.Params {
@@ -447,7 +479,7 @@ func c13Scaling(c *Ctx, sx *symx.Ctx) {
 		}
 		r.Check(after && guarded && atLeast1, "O-2", key, c.P.Pos(mu.Pos()), fmt.Sprintf("if table[k] < %s { table[k] = %s } after the context copy", desc, desc), "an entry of the boost table is overwritten without the guard `table[k] < c` (or before the context boosts are copied in): a context boost can be replaced by a smaller factor, lowering the score of commands that contain the boosted word")
 	}
-	// lookup: table[term] and postings[term] share the term; guard ok && b > 0; else 1
+	// lookup: table[term] and postings[term] share the term
 	var lk *ssa.Lookup
 	ssau.ForEachInstr(fn, false, func(in ssa.Instruction) {
 		if l, ok := in.(*ssa.Lookup); ok && l.X == tableUse {
@@ -467,129 +499,231 @@ func c13Scaling(c *Ctx, sx *symx.Ctx) {
 		return
 	}
 	r.Check(fLookup.E(lk.Index) == fLookup.E(post.Index), "O-2", fk+"#same-term", c.P.Pos(lk.Pos()), "termBoost[term] and postings[term] use the same term", "the boost is looked up for a different term than the postings it will scale")
-	// the boost value handed on: phi(1.0, b) with b arriving under ok && b > 0
-	var scoreCall *ssa.Call
-	for _, call := range callsMatching(fn, false, func(n string) bool { return strings.HasSuffix(n, "Database).processPostingsForTerm") }) {
-		scoreCall = call
-	}
-	if scoreCall == nil {
-		r.Bad("O-2", fk+"#scoring-call", c.P.Pos(fn.Pos()), "processPostingsForTerm is not called")
-		return
-	}
-	a := scoreCall.Common().Args
-	r.Check(a[1] == resultValue2(post, 0), "O-2", fk+"#pair-handed-on", c.P.Pos(scoreCall.Pos()), "the term's own postings are scored with the term's boost", "the postings scored are not the ones looked up for this term")
-	boost := a[4]
-	phi, isPhi := boost.(*ssa.Phi)
-	good := false
-	why := "the factor is not `1.0 unless (ok && b > 0)`"
-	if isPhi {
-		bval := resultValue2(lk, 0)
-		okv := resultValue2(lk, 1)
-		var oneSeen, bSeen bool
-		allKnown := true
-		for i, e := range phi.Edges {
-			if k, ok := ssau.ConstFloat(e); ok && k == 1 {
-				oneSeen = true
-				continue
-			}
-			if e == bval {
-				// arrives only through ok true and b > 0 true
-				pred := phi.Block().Preds[i]
-				cut := map[[2]int]bool{}
-				cutB := map[[2]int]bool{}
-				for _, iff := range ssau.Ifs(fn) {
-					if iff.Cond == okv {
-						cut[[2]int{iff.Block().Index, 0}] = true
-					}
-					op, x, y, okc := ssau.CondOf(iff.Cond)
-					if okc && x == bval && op == token.GTR {
-						if k, ok := ssau.ConstFloat(y); ok && k >= 0 {
-							cutB[[2]int{iff.Block().Index, 0}] = true
-						}
-					}
-				}
-				viaOK := len(cut) > 0 && !reachAvoidBB(lk.Block(), pred, cut, nil) && lk.Block() != pred
-				viaPos := len(cutB) > 0 && !reachAvoidBB(lk.Block(), pred, cutB, nil) && lk.Block() != pred
-				// the arriving edge itself may be the guard's true edge
-				for k2, sc := range pred.Succs {
-					if sc == phi.Block() && cutB[[2]int{pred.Index, k2}] {
-						viaPos = true
-					}
-					if sc == phi.Block() && cut[[2]int{pred.Index, k2}] {
-						viaOK = true
-					}
-				}
-				if !lk.CommaOk {
-					viaOK = true // a missing entry reads as 0, which the b > 0 test rejects
-				}
-				if viaOK && viaPos {
-					bSeen = true
-				} else {
-					allKnown = false
-					why = "the looked-up boost is used without `ok && b > 0` (a zero or negative factor would erase or invert a term's contribution)"
-				}
-				continue
-			}
-			allKnown = false
-		}
-		good = oneSeen && bSeen && allKnown
-	}
-	r.Check(good, "O-3", fk+"#boost-guard", c.P.Pos(scoreCall.Pos()), "boost = b if ok && b > 0, else 1.0", why)
 
-	// inside the scoring helper: boost only as a factor of an added product
-	pp := c.P.Func("internal/database", "Database", "processPostingsForTerm")
-	if pp != nil && len(pp.Params) > 4 {
-		bp := pp.Params[4]
-		pk := "database.(*Database).processPostingsForTerm"
-		okPos := true
-		whyPos := ""
-		var walk func(v ssa.Value, d int)
-		seen := map[ssa.Value]bool{}
-		reachesAdd := false
-		walk = func(v ssa.Value, d int) {
-			if seen[v] || d > 12 || v.Referrers() == nil {
-				return
+	// Where the looked-up boost b goes. It may be compared with a
+	// non-negative constant (the guard), merged with the constant 1, and from
+	// there only multiplied into a product that is added into the score
+	// accumulator of a loop over this term's own postings — through helper
+	// parameters and local variables, wherever the loop lives. Every way for b
+	// itself to travel on is behind `b > c` (c >= 0); the other inputs of the
+	// merge are the constant 1.
+	bval := resultValue2(lk, 0)
+	posEdges := map[[2]int]bool{} // edges on which b > c (c >= 0) holds
+	for _, iff := range ssau.Ifs(fn) {
+		op, x, y, okc := ssau.CondOf(iff.Cond)
+		if !okc {
+			continue
+		}
+		if y == bval {
+			x, y, op = y, x, ssau.Flip(op)
+		}
+		k, isK := ssau.ConstFloat(y)
+		if x != bval || !isK || k < 0 {
+			continue
+		}
+		switch op {
+		case token.GTR:
+			posEdges[[2]int{iff.Block().Index, 0}] = true
+		case token.LEQ:
+			posEdges[[2]int{iff.Block().Index, 1}] = true
+		case token.GEQ:
+			if k > 0 {
+				posEdges[[2]int{iff.Block().Index, 0}] = true
 			}
-			seen[v] = true
-			for _, ref := range *v.Referrers() {
-				switch u := ref.(type) {
-				case *ssa.BinOp:
-					switch u.Op {
-					case token.MUL:
-						walk(u, d+1)
-					case token.ADD:
-						if v != ssa.Value(bp) {
-							reachesAdd = true
-							walk(u, d+1)
-						} else {
-							okPos, whyPos = false, "the boost is added, not multiplied"
-						}
-					case token.QUO:
-						if u.Y == v {
-							okPos, whyPos = false, "the boost is used as a divisor"
-						} else {
-							walk(u, d+1)
-						}
-					case token.SUB:
-						okPos, whyPos = false, "a boosted quantity is subtracted"
-					default:
-						if u.Op == token.LSS || u.Op == token.GTR || u.Op == token.LEQ || u.Op == token.GEQ || u.Op == token.EQL || u.Op == token.NEQ {
-							okPos, whyPos = false, "the boost is compared (it may only scale)"
-						}
-					}
-				case *ssa.UnOp:
-					if u.Op == token.SUB {
-						okPos, whyPos = false, "the boost is negated"
-					}
-				case *ssa.MapUpdate, *ssa.Store, *ssa.Phi, *ssa.DebugRef:
-				case *ssa.Call:
-					okPos, whyPos = false, "the boost is passed to "+ssau.CallName(u)
-				}
+		case token.LSS:
+			if k > 0 {
+				posEdges[[2]int{iff.Block().Index, 1}] = true
 			}
 		}
-		walk(bp, 0)
-		r.Check(okPos && reachesAdd, "O-2", pk+"#boost-in-positive-position", c.P.Pos(pp.Pos()), "the boost occurs only as a factor of a product added to scores[docID]", "inside the scoring loop "+whyPos)
 	}
+	// b reaches block blk (entering it from pred when pred != nil) only under the guard
+	guardedAt := func(blk, pred *ssa.BasicBlock) bool {
+		if len(posEdges) == 0 {
+			return false
+		}
+		if pred != nil {
+			for k2, sc := range pred.Succs {
+				if sc == blk && posEdges[[2]int{pred.Index, k2}] {
+					return true
+				}
+			}
+			blk = pred
+		}
+		if blk == lk.Block() {
+			return false
+		}
+		return !reachAvoidBB(lk.Block(), blk, posEdges, nil)
+	}
+	type flowState struct {
+		bad        string
+		guardOK    bool
+		onesOK     bool
+		accs       []*ssa.MapUpdate
+		seen       map[ssa.Value]bool
+		seenGuards int
+	}
+	st := &flowState{guardOK: true, onesOK: true, seen: map[ssa.Value]bool{}}
+	rawSet := map[ssa.Value]bool{}
+	var walk func(v ssa.Value, raw bool, d int)
+	walk = func(v ssa.Value, raw bool, d int) {
+		if st.seen[v] || d > 40 || v.Referrers() == nil {
+			return
+		}
+		st.seen[v] = true
+		if raw {
+			rawSet[v] = true
+		}
+		for _, ref := range *v.Referrers() {
+			switch u := ref.(type) {
+			case *ssa.DebugRef:
+			case *ssa.BinOp:
+				switch u.Op {
+				case token.MUL:
+					if v == bval && !guardedAt(u.Block(), nil) {
+						st.guardOK = false
+					}
+					walk(u, false, d+1)
+				case token.ADD:
+					if raw {
+						st.bad = "the boost is added, not multiplied"
+					} else {
+						walk(u, false, d+1)
+					}
+				case token.QUO:
+					if u.Y == v {
+						st.bad = "the boost is used as a divisor"
+					} else {
+						walk(u, raw, d+1)
+					}
+				case token.SUB:
+					st.bad = "a boosted quantity is subtracted"
+				case token.LSS, token.GTR, token.LEQ, token.GEQ, token.EQL, token.NEQ:
+					if v != bval {
+						st.bad = "a boosted quantity is compared (the boost may only scale)"
+					}
+				}
+			case *ssa.UnOp:
+				if u.Op == token.SUB {
+					st.bad = "the boost is negated"
+				}
+			case *ssa.Phi:
+				for i, e := range u.Edges {
+					if e == v {
+						if v == bval && !guardedAt(u.Block(), u.Block().Preds[i]) {
+							st.guardOK = false
+						}
+						continue
+					}
+					if raw {
+						if k, ok := ssau.ConstFloat(e); !ok || k != 1 {
+							if !st.seen[e] {
+								st.onesOK = false
+							}
+						}
+						continue
+					}
+					// a product x*b merged with something else: that must be x
+					// itself (the factor 1 written out)
+					if st.seen[e] {
+						continue
+					}
+					mulOK := false
+					if bo, ok := v.(*ssa.BinOp); ok && bo.Op == token.MUL {
+						other := bo.X
+						if rawSet[bo.X] {
+							other = bo.Y
+						} else if !rawSet[bo.Y] {
+							other = nil
+						}
+						if other != nil && (e == other || fLookup.E(e) == fLookup.E(other)) {
+							mulOK = true
+						}
+					}
+					if !mulOK {
+						st.onesOK = false
+					}
+				}
+				walk(u, raw, d+1)
+			case *ssa.Convert:
+				walk(u, raw, d+1)
+			case *ssa.ChangeType:
+				walk(u, raw, d+1)
+			case *ssa.MapUpdate:
+				if u.Value == v && !raw {
+					st.accs = append(st.accs, u)
+				} else if u.Value == v {
+					st.bad = "the boost itself is stored into a map"
+				}
+			case *ssa.Store:
+				// a local variable: continue at its loads
+				if al, ok := u.Addr.(*ssa.Alloc); ok && u.Val == v {
+					if v == bval && !guardedAt(u.Block(), nil) {
+						st.guardOK = false
+					}
+					for _, r2 := range *al.Referrers() {
+						if ld, ok := r2.(*ssa.UnOp); ok && ld.Op == token.MUL {
+							walk(ld, raw, d+1)
+						}
+					}
+				} else if u.Val == v {
+					st.bad = "a boosted quantity is stored outside a local variable"
+				}
+			case *ssa.Call:
+				cal := u.Common().StaticCallee()
+				if cal == nil || !c.P.IsRepoFunc(cal) || len(cal.Blocks) == 0 {
+					st.bad = "a boosted quantity is passed to " + ssau.CallName(u)
+					continue
+				}
+				if v == bval && !guardedAt(u.Block(), nil) {
+					st.guardOK = false
+				}
+				for i, a := range u.Common().Args {
+					if a == v && i < len(cal.Params) {
+						walk(cal.Params[i], raw, d+1)
+					}
+				}
+			case *ssa.Return:
+				st.bad = "a boosted quantity is returned"
+			case *ssa.If:
+			default:
+				st.bad = "a boosted quantity is used by " + ref.String()
+			}
+		}
+	}
+	walk(bval, true, 0)
+	r.Check(st.bad == "" && len(st.accs) > 0, "O-2", fk+"#boost-in-positive-position", c.P.Pos(lk.Pos()), fmt.Sprintf("the boost occurs only as a factor of a product added into the score accumulator (%d update site(s))", len(st.accs)), "on the way from the boost lookup to the score accumulator "+orStr(st.bad, "the boost never reaches an accumulator update"))
+	r.Check(st.guardOK && st.onesOK && len(posEdges) > 0, "O-3", fk+"#boost-guard", c.P.Pos(lk.Pos()), "the looked-up boost travels on only behind b > c (c >= 0); every other input of the merge is the constant 1", "the looked-up boost is used without a `b > 0` test, or the factor used otherwise is not the constant 1 (a zero or negative factor would erase or invert a term's contribution)")
+	// the accumulator updates scaled by this boost lie in loops over this term's own postings
+	pairOK := len(st.accs) > 0
+	pls := postingLoops(c)
+	for _, mu := range st.accs {
+		in := false
+		for _, pl := range pls {
+			if pl.fn == mu.Parent() && pl.loop.InLoop(mu.Block()) && tracesTo(c, pl.loop.Over, ssa.Value(post), 0) {
+				in = true
+			}
+		}
+		if !in {
+			pairOK = false
+		}
+	}
+	r.Check(pairOK, "O-2", fk+"#pair-handed-on", c.P.Pos(post.Pos()), "the term's own postings are scored with the term's boost", "the postings scored with this boost are not the ones looked up for the same term")
+}
+
+func allConstAtLeast1(vs []ssa.Value) bool {
+	for _, v := range vs {
+		if k, ok := ssau.ConstFloat(v); !ok || k < 1 || math.IsInf(k, 0) || math.IsNaN(k) {
+			return false
+		}
+	}
+	return len(vs) > 0
+}
+
+func orStr(a, b string) string {
+	if a != "" {
+		return a
+	}
+	return b
 }
 
 // c13ResolveMake: the map made by v: the make itself, or a load of a local
